@@ -4,7 +4,7 @@ From Coq Require Import ZArith QArith List Bool String Ascii.
 From Coq Require Import Floats.PrimFloat.
 From PAFCommon Require Import PyFloat PyNum.
 From Coq Require Import Permutation.
-From PAFC07 Require Import Gen Model Proofs1 Proofs2 Proofs3 Proofs4 Proofs5 Proofs6 Proofs7 Refute.
+From PAFC07 Require Import Gen Model Proofs1 Proofs2 Proofs3 Proofs4 Proofs5 Proofs6 Proofs7 Proofs8 Refute.
 Import ListNotations.
 Open Scope string_scope.
 Open Scope list_scope.
@@ -29,6 +29,20 @@ Proof. exact stable_fit. Qed.
 Theorem C07_stable_set_order : forall (md5 : string -> string) (ps : float -> string) (C : obj -> obj) (l l' : list string),
   frame C -> Permutation l l' -> ident md5 ps (C (OSet l)) = ident md5 ps (C (OSet l')).
 Proof. exact set_order_irrelevant_ctx. Qed.
+
+(* one search object fitted again and again: the k-th fit describes the k-th (search, model, tag), whatever the
+   history before it and whatever tag its paths object held at the start *)
+Theorem C07_history_independent : forall (s : node) (h : list (node * option string)) (st : paths_state) (k : nat)
+                                         (m : node) (t : option string),
+  nth_error h k = Some (m, t) -> nth_error (run_history s st h) k = Some (fit_obj s m t).
+Proof. exact history_independent. Qed.
+
+Theorem C07_history_identifier : forall (md5 : string -> string) (ps : float -> string) (s : node)
+      (h h' : list (node * option string)) (st st' : paths_state) (k k' : nat) (m : node) (t : option string),
+  nth_error h k = Some (m, t) -> nth_error h' k' = Some (m, t) ->
+  option_map (ident md5 ps) (nth_error (run_history s st h) k) =
+  option_map (ident md5 ps) (nth_error (run_history s st' h') k').
+Proof. exact history_identifier. Qed.
 
 (* SearchOutput.id (tag always passed, possibly None) describes the fit exactly as AbstractPaths does *)
 Theorem C07_output_id_same : forall (ps : float -> string) (s m : node) (tag : option string),
